@@ -290,6 +290,8 @@ def _pure_case(case):
         return _funcseq_case(case)
     if kind == "returned-settings":
         return _returned_settings_case(case)
+    if kind == "attribute-handover":
+        return _attribute_handover_case(case)
     if kind == "method-kws":
         # dictionaries of minimiser keywords (incl. keywords lmfit knows
         # under an older name) are not modified
@@ -496,6 +498,91 @@ def _returned_settings_case(case):
     return out
 
 
+HANDOVER_STEPS = ["compute_tip_position", "correct_force_offset",
+                  "correct_tip_offset"]
+HANDOVER_OPTIONS = {"correct_tip_offset": {"method": "fit_constant_line"}}
+HANDOVER_LATER = {
+    "apply:other-steps": lambda c: c.apply_preprocessing(
+        ["compute_tip_position"]),
+    "apply:other-options": lambda c: c.apply_preprocessing(
+        list(HANDOVER_STEPS),
+        options={"correct_tip_offset": {"method": "gradient_zero_crossing"}}),
+    "fit:other-steps": lambda c: c.fit_model(
+        preprocessing=["compute_tip_position", "correct_tip_offset"]),
+    "fit:other-options": lambda c: c.fit_model(
+        preprocessing_options={"correct_tip_offset":
+                               {"method": "deviation_from_baseline"}}),
+    "apply:rejected": lambda c: c.apply_preprocessing(
+        ["compute_tip_position", "nope"]),
+    "fit": lambda c: c.fit_model(),
+}
+
+
+def _attribute_handover_case(case):
+    """a step list and an options dictionary handed over through the public
+    attributes `preprocessing` / `preprocessing_options` (the documented
+    alternative to passing them): later calls on that curve do not write
+    into them, and another curve given the same objects is processed as
+    with fresh equal-valued ones"""
+    import copy as _copy
+    from .. import state
+    out = []
+    state.restore()
+
+    def curve():
+        tr = synth.truth_params("hertz_para", E=3000.0, contact_point=2e-7,
+                                baseline=1e-10)
+        return synth.make_curve("hertz_para", tr, n_app=150, n_ret=100,
+                                noise=2e-11, seed=1, innate_tip=False)
+
+    def handover(c, steps, options):
+        c.preprocessing = steps
+        c.preprocessing_options = options
+        c.apply_preprocessing()
+    ref = curve()
+    handover(ref, list(HANDOVER_STEPS), _copy.deepcopy(HANDOVER_OPTIONS))
+    steps = list(HANDOVER_STEPS)
+    options = _copy.deepcopy(HANDOVER_OPTIONS)
+    a = curve()
+    handover(a, steps, options)
+    for later in case["later"]:
+        try:
+            HANDOVER_LATER[later](a)
+        except BaseException as e:
+            if isinstance(e, (KeyboardInterrupt, SystemExit, MemoryError)):
+                raise
+    wit = "+".join(case["later"])
+    if steps != HANDOVER_STEPS:
+        out.append(V(PROP, "argument-mutated", site="attribute-handover",
+                     witness="steps:" + wit, detail="the caller's step list "
+                     f"was rewritten: {HANDOVER_STEPS} -> {steps}",
+                     case=case, kind="pure"))
+    if options != HANDOVER_OPTIONS:
+        out.append(V(PROP, "argument-mutated", site="attribute-handover",
+                     witness="options:" + wit, detail="the caller's options "
+                     f"were rewritten: {HANDOVER_OPTIONS} -> {options}",
+                     case=case, kind="pure"))
+    # what the caller holds goes to a second curve
+    b = curve()
+    try:
+        handover(b, steps, options)
+        fb, fr = cn.indent_fields(b), cn.indent_fields(ref)
+        same = fb == fr
+        detail = "" if same else str(sorted(
+            k for k in set(fb) | set(fr) if fb.get(k) != fr.get(k))[:6])
+    except BaseException as e:
+        if isinstance(e, (KeyboardInterrupt, SystemExit, MemoryError)):
+            raise
+        same, detail = False, repr(e)
+    if not same:
+        out.append(V(PROP, "alias-differs-from-twin",
+                     site="attribute-handover", witness=wit,
+                     detail="a second curve given the caller's objects is "
+                     "not processed as with fresh equal-valued ones: "
+                     + detail, case=case, kind="pure"))
+    return out
+
+
 FS_CALLS = ("M", "R0", "R5")
 FS_EDITS = ("EX", "EY", "EP", "EC", "ER")
 
@@ -628,6 +715,10 @@ def pure_cases():
                      "initial-params", "model-defaults"):
             cases.append({"kind": "returned-settings", "model": mk,
                           "edit": edit})
+    for l1 in HANDOVER_LATER:
+        cases.append({"kind": "attribute-handover", "later": [l1]})
+        for l2 in HANDOVER_LATER:
+            cases.append({"kind": "attribute-handover", "later": [l1, l2]})
     for entry in ("fit_model", "IndentationFitter"):
         for meth, kws in (("leastsq", {"maxfev": 4000}),
                           ("leastsq", {"max_nfev": 4000, "ftol": 1e-9}),
